@@ -35,13 +35,34 @@ def showMsg (m : Message) : String :=
 
 def same (ref x : Bytes) : String := if x = ref then "=" else hexOfBytes x
 
+def fnv64 (bs : Bytes) : Nat :=
+  bs.foldl (fun h b => ((h ^^^ b.toNat) * 0x100000001b3) % 2^64) 0xcbf29ce484222325
+
+def hex16 (n : Nat) : String :=
+  String.ofList ((List.range 16).reverse.map fun i => hexDigit ((n / 16^i) % 16))
+
+/-- Read frame after frame from one stream with one reader (each successful read consumes exactly its frame). -/
+def readAll (reader : Bytes → WOut Bytes) (bs : Bytes) : String :=
+  let rec go (fuel : Nat) (s : Bytes) (acc : List String) : List String × String :=
+    match fuel with
+    | 0 => (acc.reverse, "runaway")
+    | fuel + 1 =>
+      match reader s with
+      | .ok f => go fuel (s.drop f.length) (s!"{f.length}:{hex16 (fnv64 f)}" :: acc)
+      | .err e => (acc.reverse, showErr e)
+      | .panic => (acc.reverse, "PANIC")
+      | .abort => (acc.reverse, "ABORT")
+  let (frames, e) := go 10001 bs []
+  s!"n={frames.length} [{",".intercalate frames}] end={e}"
+
 def step (st : St) (ws : List String) : St × String :=
   match ws with
   | ["mode", "checks"] => ({ st with mode := .checks }, "")
   | ["mode", "wraps"] => ({ st with mode := .wraps }, "")
   | "msg" :: idx :: rest =>
     -- msg <idx> <11 fields> <q> <b> <cap>
-    match headerOfWords (rest.take 11), rest.drop 11 with
+    -- optional trailing tokens (spare query capacity, short-write sink size) do not change the prediction
+    match headerOfWords (rest.take 11), (rest.drop 11).take 3 with
     | some h, [q, b, cap] =>
       match bytesOfHex q, bytesOfHex b with
       | some q, some b =>
@@ -76,6 +97,10 @@ def step (st : St) (ws : List String) : St × String :=
         else if op = "read1" then some (showOut hexOfBytes (readMessageInto hf Gen.readIntoSumForm Gen.readIntoAlloc st.mode bs))
         else if op = "read2" then some (showOut showMsg (readMessage hf Gen.asyncReadAlloc st.mode bs))
         else if op = "read3" then some (showOut hexOfBytes (readMessageInto hf Gen.asyncReadIntoSumForm Gen.asyncReadIntoAlloc st.mode bs))
+        else if op = "reads0" then some (readAll (fun s => (readMessage hf Gen.readAlloc st.mode s).map Message.toVec) bs)
+        else if op = "reads2" then some (readAll (fun s => (readMessage hf Gen.asyncReadAlloc st.mode s).map Message.toVec) bs)
+        else if op = "reads1" then some (readAll (readMessageInto hf Gen.readIntoSumForm Gen.readIntoAlloc st.mode) bs)
+        else if op = "reads3" then some (readAll (readMessageInto hf Gen.asyncReadIntoSumForm Gen.asyncReadIntoAlloc st.mode) bs)
         else none
       match r with
       | some s => (st, idx ++ " " ++ s)
